@@ -344,26 +344,36 @@ def _msg(k, detail):
 
 
 def fresh_list_callers(ctx):
-  """Every call site of the functions in FRESH_LIST_PARAMS passes a list created in the caller's own body."""
+  """Every use of the functions in FRESH_LIST_PARAMS sits in `_compute_preconditioners`, and the value bound to
+  the mutated parameter at each call is a list built in that very invocation (value graph: a list term, not a
+  parameter, state field, captured or module-level object)."""
+  from ..lib import evaluator, Decider, econd_summary, show
+  from . import ds_common as D
   m = ctx.model
   mi = m.modules['precondition.distributed_shampoo']
   fc = m.func('distributed_shampoo', 'distributed_shampoo._compute_preconditioners')
   names = {k[0].split('.')[-1] for k in FRESH_LIST_PARAMS}
-  n = 0
-  for node in ast.walk(mi.tree):
-    if isinstance(node, ast.Call) and isinstance(node.func, ast.Name) and node.func.id in names:
-      n += 1
-      inside = fc.node.lineno <= node.lineno <= fc.node.end_lineno
-      arg = node.args[5] if len(node.args) > 5 else None
-      ok = inside and isinstance(arg, ast.Name) and arg.id == 'exponents'
-      if ok:
-        created = any(isinstance(s, ast.Assign) and any(isinstance(t, ast.Name) and t.id == 'exponents' for t in s.targets) and
-                      isinstance(s.value, ast.List) and not s.value.elts for s in fc.node.body)
-        ok = created
-      ctx.ob('C14.R1', fc.short, f'fresh list passed to {node.func.id}', ok,
-             f'{node.func.id} extends its `exponents` argument in place; every caller must pass a list it created itself (not state, not a captured object)',
-             ctx.loc(fc, node), sample='exponents = [] in the caller')
-  ctx.need('C14.R1', n, 3, 'call sites of the list-mutating refresh functions')
+  uses = [node for node in ast.walk(mi.tree) if isinstance(node, ast.Name) and node.id in names and isinstance(node.ctx, ast.Load)]
+  for node in uses:
+    inside = fc.node.lineno <= node.lineno <= fc.node.end_lineno
+    ctx.ob('C14.R1', fc.short, f'{node.id} used only by _compute_preconditioners', inside,
+           f'{node.id} extends its `exponents` argument in place; it may only be called from _compute_preconditioners, which builds that list per call',
+           ctx.loc(fc, node) if inside else f'precondition/distributed_shampoo.py:{node.lineno}', sample=None, trivial=True)
+  ctx.need('C14.R1', len({u.id for u in uses}), 3, 'uses of the list-mutating refresh functions')
+  ev = evaluator(m, opaque=D.OPAQUE | names | {'preconditioner_from_params'}, decide=Decider(), summaries={'efficient_cond': econd_summary})
+  ev.run(fc)
+  calls = [c for c in ev.calls if c.callee.split('.')[-1] in names and c.caller.startswith(fc.fq)]
+  ctx.need('C14.R1', len({c.callee for c in calls}), 3, 'calls of the list-mutating refresh functions')
+  for c in calls:
+    short = c.callee.split('.')[-1]
+    for (fn, pname) in FRESH_LIST_PARAMS:
+      if fn.split('.')[-1] != short:
+        continue
+      a = c.args.get(pname)
+      ok = a is not None and a.op == 'list'
+      ctx.ob('C14.R1', fc.short, f'fresh list passed to {short}', ok,
+             f'{short} extends its `{pname}` argument in place; every caller must pass a list it created itself (not state, not a captured object); got {show(a, maxdepth=2)[:80] if a is not None else None}',
+             ctx.loc(fc, c.node) if c.node is not None else ctx.loc(fc), sample=f'{pname} = [] built in the caller')
 
 
 STATE_CLASSES = [
@@ -397,7 +407,7 @@ def state_is_data(ctx):
 def init_counters(ctx):
   """R4: every init creates count = zeros([], int32)."""
   m = ctx.model
-  from ..lib import evaluator, is_ext_call
+  from ..lib import evaluator, is_ext_call, kwarg
   from ..terms import is_const
   sites = [('distributed_shampoo', 'distributed_shampoo.init_fn', 'ShampooState'), ('distributed_shampoo', 'distributed_shampoo.sharded_init_fn', 'ShampooState'),
            ('sm3', 'sm3.init_fn', 'SM3State'), ('tearfree.shampoo', '_init', '_ShampooState'), ('tearfree.sketchy', '_init', '_SketchyState'),
@@ -413,6 +423,6 @@ def init_counters(ctx):
       raise AnalysisError(f'{q}: {cls} constructor not found at init')
     for c in cons:
       cnt = c.args.get('count')
-      ok = cnt is not None and is_ext_call(cnt, 'jax.numpy.zeros') and len(cnt.args[1]) == 2 and cnt.args[1][0].op == 'list' and not cnt.args[1][0].args \
-          and cnt.args[1][1].op == 'ext' and cnt.args[1][1].args[0] == 'jax.numpy.int32'
+      ok = cnt is not None and is_ext_call(cnt, 'jax.numpy.zeros') and len(cnt.args[1]) == 1 and cnt.args[1][0].op in ('list', 'tuple') and not cnt.args[1][0].args \
+          and kwarg(cnt, 'dtype') is not None and kwarg(cnt, 'dtype').op == 'ext' and kwarg(cnt, 'dtype').args[0] == 'jax.numpy.int32'
       ctx.ob('C14.R4', fi.short, f'{cls}.count = zeros([], int32)', ok, 'the step counter must start as an int32 scalar zero', ctx.loc(fi), sample='count = jnp.zeros([], jnp.int32)')
